@@ -49,7 +49,7 @@ def canon(x, depth=0):
         import scipy.sparse
         if scipy.sparse.issparse(x):
             c = x.tocoo()
-            return ["sparse", list(c.shape), sorted(zip(c.row.tolist(), c.col.tolist(), canon(c.data.tolist(), depth + 1)))]
+            return ["sparse", list(c.shape), sorted([int(r), int(cc), canon(v)] for r, cc, v in zip(c.row.tolist(), c.col.tolist(), c.data.tolist()))]
     except Exception:
         pass
     # matplotlib / seaborn artists: data only
